@@ -106,7 +106,11 @@ def step (p : Pair) : Step → Option Pair
     let e := p.get x
     if e.comm = .wdelay then
       let p' := p.set x { e with comm := .wcra }
-      some (if e.conn ≠ .nc then p'.send x [.s1f13] else p')     -- `send_stream_function` fails without a link
+      -- with a connection the S1F13 is written at once (also while NOT SELECTED: the receiver thread runs as soon as the TCP
+      -- connection is up).  Without a connection `send_stream_function` blocks; the block is written as the first frame of the
+      -- next connection, where the peer (still NOT SELECTED) answers Reject.req and the sender ignores that: the message has no
+      -- effect on either state, so the model drops it (see `Props/C20b.lean`, `delay_not_connected_differs`).
+      some (if e.conn ≠ .nc then p'.send x [.s1f13] else p')
     else none
 
 def run (p : Pair) : List Step → Option Pair
